@@ -274,3 +274,32 @@ func init() {
 		Bounds: func(tier string) map[string]string { return map[string]string{} },
 	})
 }
+
+func init() {
+	register(&PropSpec{
+		ID:   "C11",
+		Pkgs: []string{"root"},
+		Items: func(tier string, seed int64) []Item {
+			var it []Item
+			for t := 0; t < 8; t++ {
+				it = append(it, Item{PkgKey: "root", Func: "VerifC11_Prefix", Shape: []int{t}})
+			}
+			it = append(it, Item{PkgKey: "root", Func: "VerifC11_AddrFields", Shape: []int{}})
+			sizes := []int{8, 4, 3, 16}
+			for typ := 0; typ < 4; typ++ {
+				for mode := 0; mode < 2; mode++ {
+					it = append(it, Item{PkgKey: "root", Func: "VerifC11_ReprText", Shape: []int{typ, mode}})
+				}
+				for n := 0; n <= sizes[typ]+2; n++ {
+					it = append(it, Item{PkgKey: "root", Func: "VerifC11_ReprBinary", Shape: []int{typ, n}})
+				}
+				for n := 0; n <= 2*sizes[typ]+2; n++ {
+					it = append(it, Item{PkgKey: "root", Func: "VerifC11_ReprTextLen", Shape: []int{typ, n}})
+				}
+			}
+			return it
+		},
+		Bounds: func(tier string) map[string]string { return map[string]string{} },
+		Stubs:  stubErrors,
+	})
+}
